@@ -18,6 +18,7 @@ import (
 )
 
 var hugeInt = regexp.MustCompile(`[0-9]{16,}`)
+var beyondInt64 = regexp.MustCompile(`[0-9]{19,}`)
 
 type repair struct {
 	key     string
@@ -209,6 +210,12 @@ func (h *harness) oracle(op string, prog []*S, mode, src, aspOut string, ft *fea
 	}
 	if aspOut == pyOut {
 		r.Count("outcome:agree")
+		return
+	}
+	if beyondInt64.MatchString(pyOut) {
+		// "all integers are 64-bit signed integers" (docs/language.html): Python's unbounded result is outside
+		// the documented subset
+		r.Count("outcome:python-int-beyond-64-bit")
 		return
 	}
 	r.Count("outcome:disagree")
